@@ -173,7 +173,10 @@ type Config struct {
 // World is one controlled execution.
 type World struct {
 	cfg      Config
-	gs       []*G
+	gs       []*G // every goroutine ever spawned, indexed by ID
+	live     []*G // goroutines that have not finished
+	nDone    int
+	doneHash uint64
 	ready    []*G
 	cur      *G
 	last     *G
@@ -221,8 +224,11 @@ func (w *World) newKey() uint64 {
 // clock and the pending timers.
 func (w *World) StateHash() uint64 {
 	h := mix(0x5151, uint64(w.now.UnixNano()))
-	var sum uint64
-	for _, g := range w.gs {
+	sum := w.doneHash
+	for _, g := range w.live {
+		if g.state == gDone {
+			continue
+		}
 		x := mix(g.Key, g.Hist)
 		x = mix(x, uint64(g.state))
 		if g.demoted {
@@ -331,6 +337,7 @@ func (w *World) spawn(name string, fn func()) *G {
 		g.Hist = g.Key
 	}
 	w.gs = append(w.gs, g)
+	w.live = append(w.live, g)
 	w.ready = append(w.ready, g)
 	go func() {
 		<-g.wake
@@ -343,6 +350,8 @@ func (w *World) spawn(name string, fn func()) *G {
 			}
 			g.state = gDone
 			g.op = nil
+			w.nDone++
+			w.doneHash += mix(mix(g.Key, g.Hist), uint64(gDone))
 			w.back <- struct{}{}
 		}()
 		if w.aborting {
@@ -459,9 +468,19 @@ func (w *World) loop() {
 			w.Trunc = fmt.Sprintf("step cap %d reached", w.cfg.MaxSteps)
 			return
 		}
+		if w.nDone > 64 && w.nDone*2 > len(w.live) {
+			lv := w.live[:0]
+			for _, g := range w.live {
+				if g.state != gDone {
+					lv = append(lv, g)
+				}
+			}
+			w.live = lv
+			w.nDone = 0
+		}
 		var run []*G
 		anyDemoted := false
-		for _, g := range w.gs {
+		for _, g := range w.live {
 			if g.state == gPending {
 				if g.demoted {
 					anyDemoted = true
@@ -471,7 +490,7 @@ func (w *World) loop() {
 			}
 		}
 		if len(run) == 0 && anyDemoted {
-			for _, g := range w.gs {
+			for _, g := range w.live {
 				g.demoted = false
 			}
 			continue
@@ -640,7 +659,7 @@ func (w *World) addTimer(d time.Duration, fire func(w *World)) *timer {
 
 func (w *World) describeBlocked() string {
 	var sb strings.Builder
-	for _, g := range w.gs {
+	for _, g := range w.live {
 		if g.state == gParked || g.state == gPending {
 			inf := OpInfo{}
 			if g.op != nil {
@@ -655,7 +674,7 @@ func (w *World) describeBlocked() string {
 // abortAll unwinds every goroutine that is still alive.
 func (w *World) abortAll() {
 	w.aborting = true
-	for _, g := range w.gs {
+	for _, g := range w.live {
 		if g.state == gDone {
 			continue
 		}
